@@ -36,6 +36,7 @@ impl PanicInfo {
 
 thread_local! {
     static LAST: RefCell<Option<PanicInfo>> = const { RefCell::new(None) };
+    static DEPTH: std::cell::Cell<u32> = const { std::cell::Cell::new(0) };
 }
 
 pub fn install_hook() {
@@ -51,6 +52,10 @@ pub fn install_hook() {
             .location()
             .map(|l| format!("{}:{}", l.file(), l.line()))
             .unwrap_or_else(|| "<unknown>".into());
+        if DEPTH.with(|d| d.get()) == 0 {
+            // a panic outside any guard is a harness bug (or a panic on another thread): show it
+            eprintln!("HARNESS PANIC (outside guard): {} at {}", msg, loc);
+        }
         LAST.with(|l| *l.borrow_mut() = Some(PanicInfo { msg, loc }));
     }));
 }
@@ -81,7 +86,10 @@ impl<T> Out<T> {
 
 #[inline]
 pub fn guard<T>(f: impl FnOnce() -> T) -> Out<T> {
-    match catch_unwind(AssertUnwindSafe(f)) {
+    DEPTH.with(|d| d.set(d.get() + 1));
+    let r = catch_unwind(AssertUnwindSafe(f));
+    DEPTH.with(|d| d.set(d.get() - 1));
+    match r {
         Ok(v) => Out::Val(v),
         Err(_) => {
             let p = LAST.with(|l| l.borrow_mut().take()).unwrap_or(PanicInfo {
